@@ -258,8 +258,8 @@ SPECS["C08"] = node_spec(
 
 SPECS["C10"] = node_spec(
     "C10", ["progress", "msgs.repl", "msgs.resp", "timers", "hard", "result"], "progress",
-    "Props/C10.v (35 pinned theorems): the deterministic content of progress, for every node state and message: a heartbeat response un-pauses the peer, frees one in-flight slot of a full window and makes the leader send (the exact append or snapshot) in the same step; a rejection repairs next_idx (exact formula; strictly decreasing towards matched+1) and re-probes at once; a successful acknowledgement raises matched and moves Probe to Replicate / Snapshot to Probe; snapshot status reports and unreachable reports leave the Snapshot / Replicate state: no Progress state is absorbing; the election timer fires hup after exactly max(1, randomized_timeout - elapsed) ticks and hup on a promotable non-leader with no unapplied membership change always campaigns; at the election timeout a check-quorum leader steps down iff the recently active set is not a quorum; a leader queues exactly one heartbeat per peer every heartbeat_timeout ticks; and a convergence theorem for one leader and one follower of the same term under a lock-step round (deliver, reply, tick): within (heartbeat_timeout+2)*((last-matched)*(last+3)+last+2) rounds without a panic the follower's log equals the leader's and matched = last index, from any Probe/Replicate progress state (paused or not, any window contents) and any divergent follower tail.",
-    "the cluster-level liveness statement itself (eventually exactly one leader - depends on the random timeouts; whole-cluster convergence; a new proposal applied everywhere) is not a theorem: it is only exercised by the progress monitor (fair fault-free suffix after a random fault prefix) in the search. The pair theorem excludes batching, check_quorum, read-index traffic, compaction past matched, a pending window shrink and proposals during the run. KNOWN FINDING (liveness, open): a follower's request_snapshot above the leader's commit index can stall a group that needs that follower for its quorum (known_findings.txt).",
+    "Props/C10.v (43 pinned theorems): the deterministic content of progress, for every node state and message: a heartbeat response un-pauses the peer, frees one in-flight slot of a full window and makes the leader send (the exact append or snapshot) in the same step; a rejection repairs next_idx (exact formula; strictly decreasing towards matched+1) and re-probes at once; a successful acknowledgement raises matched and moves Probe to Replicate / Snapshot to Probe; snapshot status reports and unreachable reports leave the Snapshot / Replicate state: no Progress state is absorbing; the election timer fires hup after exactly max(1, randomized_timeout - elapsed) ticks and hup on a promotable non-leader with no unapplied membership change always campaigns; at the election timeout a check-quorum leader steps down iff the recently active set is not a quorum; a leader queues exactly one heartbeat per peer every heartbeat_timeout ticks; and a convergence theorem for one leader and one follower of the same term under a lock-step round (deliver, reply, tick): within (heartbeat_timeout+2)*((last-matched)*(last+3)+last+2) rounds without a panic the follower's log equals the leader's and matched = last index, from any Probe/Replicate progress state (paused or not, any window contents) and any divergent follower tail; lifted to the whole cluster (star_convergence: a leader and ANY number of followers, lock-step star schedule, bound = the maximum of the per-follower bounds; the per-follower measures decrease independently - a frame lemma, with the naive 'another follower's response never moves next_idx' refuted by a witness) and with the commit clause (star_commit_all: if the leader's last entry has its term and its own log is persisted, then after the run the leader's commit index equals its last index, and after one more heartbeat period every follower's does).",
+    "the cluster-level liveness statement itself (eventually exactly one leader - depends on the random timeouts; whole-cluster convergence; a new proposal applied everywhere) is not a theorem: it is only exercised by the progress monitor (fair fault-free suffix after a random fault prefix) in the search. The proposal clause (a new entry proposed after convergence is applied everywhere) is not proved (it needs the majority form of the quorum argument and RawNode-level persistence). The pair/star theorems exclude batching, check_quorum, read-index traffic, compaction past matched, a pending window shrink and proposals during the run. KNOWN FINDING (liveness, open): a follower's request_snapshot above the leader's commit index can stall a group that needs that follower for its quorum (known_findings.txt).",
     "DESIGN.md section 7, C10",
     "Theorems: Props/C10.v over M/Raft.v, M/Progress.v, M/Inflights.v. Tie: pointwise differential, projection progress + replication traffic + timers + hard state + results. The progress monitor runs on every check (known finding reported as KNOWN-FINDING).")
 SPECS["C10"]["always_monitor"] = True
